@@ -96,8 +96,22 @@ def run(ctx):
         else:
             if not (got.startswith("accept") or " endExpected" in got or " endUnfinished" in got):
                 viol.append({"input_hex": x.hex(), "input": x.decode("latin-1"), "what": "text before the reported token is already rejected (%s): reported position is later than the first invalid token" % got[:100], "original_hex": t.hex()})
+    # the reported place must not depend on what the same Parser object rejected before: rejected scripts with different line
+    # layouts through ONE Parser, each answer compared with that of a fresh Parser
+    import pyref
+    from sievelib.parser import Parser
+    multi = [(t, a) for t, a, p in cand if t.count(b"\n") >= 1][:150] + [(t, a) for t, a, p in cand if t.count(b"\n") == 0][:150]
+    nre = 0
+    for k in range(0, len(multi) - 2, 3):
+        po = Parser()
+        for t, a in multi[k:k + 3]:
+            got = pyref.parse_answer(t, parser=po)
+            nre += 1
+            if got != a:
+                viol.append({"input_hex": t.hex(), "input": t.decode("latin-1"), "history_hex": [x.hex() for x, _ in multi[k:k + 3]],
+                             "what": "rejection reported differently by a Parser that had rejected other scripts before: %s, fresh parser: %s" % (got[:100], a[:100])})
     fresh, known = split_known("C18", viol, lambda f, v: False)
-    res = std_result(rec, info, fresh, known, RULE, {"tail-variation": {"evaluations": len(texts), "candidates": len(cand)}}, diffs=rec.diffs() + ndiff)
+    res = std_result(rec, info, fresh, known, RULE, {"tail-variation": {"evaluations": len(texts), "candidates": len(cand)}, "reused-parser": {"evaluations": nre}}, diffs=rec.diffs() + ndiff)
     res["evaluations"] += len(texts)
     return res
 
